@@ -4,6 +4,7 @@ import c11lib as L
 NAME = "creek"
 MODULE = "cspuz.puzzle.creek"
 FUNC = "solve_creek"
+TIER1 = ("Creek", "solve_creek_model")
 VALUES = [-1, 0, 1, 2, 3, 4]
 
 
@@ -39,3 +40,17 @@ def tier2(tier, rng):
     for (h, w) in [(1, 2), (2, 1), (2, 2), (1, 3)]:
         for _ in range(20 if th else 3):
             yield {"h": h, "w": w, "grid": L.random_grid(rng, h + 1, w + 1, VALUES, 0.6)}
+
+
+def tier1_problems(tier, rng):
+    """program-capture tie: every clue layout of the 1x1 board, samples on small, non-square and larger boards
+    (clues on the rim and in the corners, zero clues), the boards without cells (ValueError)"""
+    th = tier == "thorough"
+    for g in L.sample(rng, L.all_grids(2, 2, VALUES), 200 if th else 20):
+        yield {"h": 1, "w": 1, "grid": g}
+    for (h, w) in [(1, 2), (2, 1), (2, 2), (1, 3), (3, 1), (2, 3), (3, 2), (3, 3), (2, 5), (5, 2), (4, 4), (3, 6), (6, 5), (1, 7), (7, 1)]:
+        for _ in range(12 if th else 3):
+            yield {"h": h, "w": w, "grid": L.random_grid(rng, h + 1, w + 1, VALUES, 0.5)}
+        yield {"h": h, "w": w, "grid": L.random_grid(rng, h + 1, w + 1, VALUES[1:], 0.0, default=0)}
+    for (h, w) in [(0, 0), (0, 2), (2, 0)]:
+        yield {"h": h, "w": w, "grid": [[-1] * (w + 1) for _ in range(h + 1)]}
